@@ -223,6 +223,19 @@ def ob_translate(cx):
         cx.observe("rel", rel)
         return
     cx.require(_segments_ok(cx, rel), "translated path is not '.' or './...' without '..' segments")
+    # The relpath handed to the backing transport is URL-escaped; every transport unescapes it before touching the
+    # file system.  What it sees then must still not climb above the served directory.
+    try:
+        seen = m_unescape(rel)
+    except U.InvalidURL:
+        seen = rel
+    depth = 0
+    for seg in seen.split("/"):
+        if cx.truth(seg == ".."):
+            depth -= 1
+        elif not cx.truth(seg == ".") and len(seg):
+            depth += 1
+        cx.require(depth >= 0, "after the transport's unescaping the translated path climbs above the served directory")
     if not vfs:
         for ch in rel:
             cx.require(s_or([ch == c for c in sorted(SAFE | {"%"})]), "translated path contains a character that is not URL-safe")
